@@ -220,16 +220,17 @@ Proof.
   rewrite Hscan, Hout. reflexivity.
 Qed.
 
-(* DESIGN §9 #13, on the models: "a\rb\nc\n". The lexer puts the identifier c
-   on line 2 (a lone CR is one column); RangeScanner with bufio.ScanLines
-   (tokens "a\rb" advance 4, "c" advance 2) puts the same byte on line 3. *)
-Theorem lexer_and_range_scanner_disagree_on_lone_cr :
+(* DESIGN §9 #13 after the repair of pos_scanner.go, on the models:
+   "a\rb\nc\n". The lexer puts the identifier c on line 2 (a lone CR is one
+   column) and so does RangeScanner with bufio.ScanLines (tokens "a\rb"
+   advance 4, "c" advance 2). *)
+Theorem lexer_and_range_scanner_agree_on_lone_cr :
   let src := [97; 13; 98; 10; 99; 10] in
   (exists toks tk,
      lex_config src initial_pos [1; 1; 1; 1; 1; 1] = LexOk toks /\ In tk toks /\
      t_bytes tk = [99] /\ r_start (t_range tk) = mkPos 2 1 4) /\
   range_scanner initial_pos src [(4, 3); (2, 1)] [[1; 1; 1; 1]; [1; 1]] =
-    [mkRange (mkPos 1 1 0) (mkPos 2 2 3); mkRange (mkPos 3 1 4) (mkPos 3 2 5)].
+    [mkRange (mkPos 1 1 0) (mkPos 1 4 3); mkRange (mkPos 2 1 4) (mkPos 2 2 5)].
 Proof.
   split; [|vm_compute; reflexivity].
   eexists. eexists. split; [vm_compute; reflexivity|].
